@@ -238,24 +238,45 @@ def sec_bernoulli(ck):
 DIMS = (2, 3)
 
 
-def mc_seq_fn(l, v):
-    d = MultiCategorical([l[:2], l[2:]])
-    return {"lp": d.log_prob(v), "p": d.prob(v), "ent": d.entropy()}
+def _blocks(dims):
+    offs = np.cumsum((0,) + tuple(dims[:-1])).tolist()
+    return list(zip(offs, dims))
 
 
-def mc_comp_fn(l, v):
-    a, b = Categorical(logits=l[:2]), Categorical(logits=l[2:])
-    return {"lp0": a.log_prob(v[0]), "lp1": b.log_prob(v[1]), "ent0": a.entropy(), "ent1": b.entropy()}
+def mc_seq_fn_for(dims):
+    bl = _blocks(dims)
+
+    def f(l, v):
+        d = MultiCategorical([l[o:o + n] for o, n in bl])
+        return {"lp": d.log_prob(v), "p": d.prob(v), "ent": d.entropy()}
+    return f
 
 
-def sec_multicat(ck):
-    N = sum(DIMS)
-    tr = trace(mc_seq_fn, jnp.zeros(N), jnp.zeros(2, int), argnames=["l", "v"], label="MultiCategorical(sequence logits).log_prob/prob/entropy")
-    trc = trace(mc_comp_fn, jnp.zeros(N), jnp.zeros(2, int), argnames=["l", "v"], label="component Categoricals of the product law")
+def mc_comp_fn_for(dims):
+    bl = _blocks(dims)
+
+    def f(l, v):
+        cs = [Categorical(logits=l[o:o + n]) for o, n in bl]
+        out = {}
+        for i, c in enumerate(cs):
+            out[f"lp{i}"] = c.log_prob(v[i])
+            out[f"ent{i}"] = c.entropy()
+        return out
+    return f
+
+
+def sec_multicat(ck, dims=DIMS):
+    import itertools
+    dims = tuple(dims)
+    tag = "dims=(" + ",".join(map(str, dims)) + ")"
+    N, C = sum(dims), len(dims)
+    bl = _blocks(dims)
+    tr = trace(mc_seq_fn_for(dims), jnp.zeros(N), jnp.zeros(C, int), argnames=["l", "v"], label=f"MultiCategorical(sequence logits, {tag}).log_prob/prob/entropy")
+    trc = trace(mc_comp_fn_for(dims), jnp.zeros(N), jnp.zeros(C, int), argnames=["l", "v"], label="component Categoricals of the product law")
     ck.encoded(tr, trc)
     concrete.validate(ck, tr, n=2, seed=ck.seed)
-    support = [(a, b) for a in range(2) for b in range(3)]
-    outside = [(2, 0), (0, -1)]
+    support = list(itertools.product(*[range(n) for n in dims]))
+    outside = [tuple([dims[0]] + [0] * (C - 1)), tuple([0] * (C - 1) + [-1])]
     Ps = []
 
     def given(it):
@@ -268,26 +289,31 @@ def sec_multicat(ck):
     ov = {"l": lambda res: np.log([max(val(res, p), 1e-30) for p in Ps])}
     rp = multi_replay(tr, S, it, pts, ov, judge_discrete(support, outside))
     tame = between(Ps, Fraction(1, 2), 2)
-    P, LP = discrete_obligations(ck, "multicat", "dims=(2,3)", it, outs, support, outside, asm, rp, entropy=False, tame=tame)
+    P, LP = discrete_obligations(ck, "multicat", tag, it, outs, support, outside, asm, rp, entropy=False, tame=tame)
     # product law: log-probability and entropy are the sums over the independent components
     o = it.o
     gs = []
     comp = {}
     for k in support:
-        v = np.empty(2, dtype=object)
-        v[0], v[1] = int(k[0]), int(k[1])
+        v = np.empty(C, dtype=object)
+        for i in range(C):
+            v[i] = int(k[i])
         comp[k] = trc.run(it, trc.symbols(it, given={"l": S["l"], "v": v}))
-        ssum = o.add(comp[k]["lp0"][()], comp[k]["lp1"][()])
+        ssum = comp[k]["lp0"][()]
+        for i in range(1, C):
+            ssum = o.add(ssum, comp[k][f"lp{i}"][()])
         gs.append(eq_elem(expL(o, LP[k]), expL(o, ssum)))
     ent = low(o, outs[support[0]]["ent"][()])
-    ents = o.add(low(o, comp[support[0]]["ent0"][()]), low(o, comp[support[0]]["ent1"][()]))
+    ents = low(o, comp[support[0]]["ent0"][()])
+    for i in range(1, C):
+        ents = o.add(ents, low(o, comp[support[0]][f"ent{i}"][()]))
 
     def judge_prod(runs, ins):
         l = np.asarray(ins["l"], float)
-        ls = [l[:2] - np.log(np.exp(l[:2]).sum()), l[2:] - np.log(np.exp(l[2:]).sum())]
+        ls = [l[o_:o_ + n] - np.log(np.exp(l[o_:o_ + n]).sum()) for o_, n in bl]
         bad, why = False, []
         for k in support:
-            want = ls[0][k[0]] + ls[1][k[1]]
+            want = sum(ls[i][k[i]] for i in range(C))
             if abs(float(runs[k]["lp"]) - want) > 1e-3:
                 bad = True
                 why.append(f"log_prob{k} = {float(runs[k]['lp'])}, sum of components {want}")
@@ -295,10 +321,11 @@ def sec_multicat(ck):
         if abs(float(runs[support[0]]["ent"]) - e) > 1e-3:
             bad = True
             why.append(f"entropy {float(runs[support[0]]['ent'])} vs sum of component entropies {e}")
-        return bad, {"failed": why}
+        return bad, {"failed": why[:6]}
     gp = conj([conj(it.side_conds())] + gs + [eq_elem(ent, ents)])
-    ck.prove("multicat.product_sum@dims=(2,3)", asm, gp, replay=multi_replay(tr, S, it, pts, ov, judge_prod), nonlinear=True, margin_goal=mg(tame, gp))
-    ck.control("control.multicat.logprob_is_first_component", asm, conj([eq_elem(expL(o, LP[k]), expL(o, comp[k]["lp0"][()])) for k in support]), nonlinear=True)
+    ck.prove(f"multicat.product_sum@{tag}", asm, gp, replay=multi_replay(tr, S, it, pts, ov, judge_prod), nonlinear=True, margin_goal=mg(tame, gp))
+    if dims == DIMS:
+        ck.control("control.multicat.logprob_is_first_component", asm, conj([eq_elem(expL(o, LP[k]), expL(o, comp[k]["lp0"][()])) for k in support]), nonlinear=True)
 
 
 # ===================================================================== flat parameterisation == sequence parameterisation
@@ -805,6 +832,10 @@ def main():
         sec_bernoulli(ck)
     with ck.section("multicategorical"):
         sec_multicat(ck)
+    # three and more components: cumulative (not pairwise) block offsets
+    for d3 in ([(2, 2, 2)] if not ck.thorough else [(2, 2, 2), (2, 3, 2), (2, 1, 2, 2)]):
+        with ck.section("multicat@" + "x".join(map(str, d3))):
+            sec_multicat(ck, d3)
     for dims in [(2, 3), (2, 3, 2)] + ([(1, 4)] if ck.thorough else []):
         with ck.section(f"flat_eq_sequence{dims}"):
             sec_flat_eq_sequence(ck, dims)
